@@ -12,7 +12,8 @@ this module derives, independently of each other:
                it is the input of the Coq model;
 * `resolve`    the ground truth of the property: a direct lexical-scope
                resolver over the *source-level* AST (a `for` is a scope, a
-               block is a scope, parameters are outermost, a declaration is
+               block, a loop body and a branch are scopes whether braced or
+               not, parameters are outermost, a declaration is
                visible from its own position on and not in its own dimension
                expressions). It never looks at the projection or at any
                renaming.
@@ -375,7 +376,9 @@ def resolve(d):
             scopes.pop()
         elif k == 'while':
             expr(s[1])
+            scopes.append({})      # a loop body is a scope, block or not
             stmt(s[2])
+            scopes.pop()
         elif k == 'for':
             scopes.append({})      # the loop header is a scope of its own
             stmt(s[1])
@@ -387,9 +390,13 @@ def resolve(d):
             scopes.pop()
         elif k == 'if':
             expr(s[1])
-            stmt(s[2])
+            scopes.append({})      # so is each branch: nothing declared in it is visible
+            stmt(s[2])             # in the other branch or after the `if`
+            scopes.pop()
             if s[3] is not None:
+                scopes.append({})
                 stmt(s[3])
+                scopes.pop()
         elif k == 'ret':
             expr(s[1])
         elif k == 'log':
@@ -709,3 +716,62 @@ def rand_def(rng, size, names=None, kind=None, clean=False):
     if kind == "function":
         body.append(('ret', num()))
     return (kind, "f" if kind == "function" else "T", params, body)
+
+
+# --------------------------------------------------------------------------
+# outside the grammar: a declaration as the body of a loop or a branch
+# --------------------------------------------------------------------------
+
+def unbraced_def(rng):
+    """A function in which a bare declaration is the body of a `while` or a
+    branch of an `if`, with uses of the name in the other branch and after the
+    statement. Circom's grammar derives a declaration only inside `{ }` and in
+    a `for` header, so the parser must reject every one of these; the theorems
+    that compare the renaming pass with the scoping rule are stated for the
+    shape this guarantees (Spec.ScopeSpec.branch_closed). Were such a program
+    accepted, the pass would let the declaration leak out of the branch, which
+    the oracle (every loop body and branch is a scope) reports."""
+    n = rng.choice(["x", "x", "x_0", "x0"])
+    other = rng.choice(["y", "x_0", "x0"])
+    counter = [0]
+
+    def num():
+        counter[0] += 1
+        return ('n', counter[0])
+
+    def decl():
+        return ('decl', "var", [(n, [], num())])
+
+    def use():
+        c = rng.randrange(3)
+        if c == 0:
+            return ('log', [V(n)])
+        if c == 1:
+            return ('asg', n, [], ('op', V(n), num()), "=")
+        return ('log', [('op', V(n), V(other))])
+
+    params = rng.choice([[], [n], [other], ["a"]])
+    body = []
+    if rng.random() < 0.8:
+        body.append(decl())
+    if other not in params:
+        body.append(('decl', "var", [(other, [], num())]))
+    c = rng.randrange(6)
+    if c == 0:
+        ctl = ('if', num(), decl(), None)
+    elif c == 1:
+        ctl = ('if', num(), decl(), use())
+    elif c == 2:
+        ctl = ('if', num(), use(), decl())
+    elif c == 3:
+        ctl = ('if', num(), decl(), decl())
+    elif c == 4:
+        ctl = ('while', num(), decl())
+    else:
+        ctl = ('if', num(), ('while', num(), decl()), use())
+    if rng.random() < 0.3:
+        ctl = ('block', [ctl, use()])
+    body.append(ctl)
+    body.append(use())
+    body.append(('ret', V(n)))
+    return ("function", "f", params, body)
